@@ -19,17 +19,53 @@ def resolve(mod, qual):
     return o
 
 
+def one(item):
+    mod, qual, nmod, nqual, fname, args = item
+    try:
+        impl = resolve(mod, qual)
+        norm = resolve(nmod, nqual) if nmod else None
+        iv = impl(fname, args)
+        return repr(norm(iv) if norm else iv)
+    except Exception as e:  # noqa
+        return 'probe-error %s: %s' % (type(e).__name__, e)
+
+
 def main():
     items = json.load(open(sys.argv[1]))
-    out = []
-    for mod, qual, nmod, nqual, fname, args in items:
-        try:
-            impl = resolve(mod, qual)
-            norm = resolve(nmod, nqual) if nmod else None
-            iv = impl(fname, args)
-            out.append(repr(norm(iv) if norm else iv))
-        except Exception as e:  # noqa
-            out.append('probe-error %s: %s' % (type(e).__name__, e))
+    if os.environ.get('VERIF_PROBE_LOGGING') == 'debug':
+        # an application that turns on debug logging for everything (messages discarded)
+        import logging
+        logging.basicConfig(level=logging.DEBUG, stream=open(os.devnull, 'w'))
+        logging.getLogger().setLevel(logging.DEBUG)
+    nthreads = int(os.environ.get('VERIF_PROBE_THREADS', '0') or 0)
+    if nthreads:
+        # the same requests answered by several threads at once, each starting elsewhere in the list, with the
+        # interpreter switching threads as often as it can: every thread must get the answers of a lone caller
+        import threading
+        sys.setswitchinterval(1e-6)
+        for it in items[:1]:
+            one(it)         # imports done before the threads start
+        results = [None] * nthreads
+
+        def work(k):
+            n = len(items)
+            order = [(i + k * n // nthreads) % n for i in range(n)]
+            res = [None] * n
+            for i in order:
+                res[i] = one(items[i])
+            results[k] = res
+        ts = [threading.Thread(target=work, args=(k,)) for k in range(nthreads)]
+        for t in ts:
+            t.start()
+        for t in ts:
+            t.join()
+        out = list(results[0])
+        for res in results[1:]:
+            for i, r in enumerate(res):
+                if r != out[i] and not out[i].startswith('thread-difference'):
+                    out[i] = 'thread-difference %s | %s' % (out[i], r)
+    else:
+        out = [one(it) for it in items]
     json.dump(out, open(sys.argv[2], 'w'))
 
 
